@@ -1,8 +1,74 @@
 import Demeter.Drv.Json
+import Demeter.Trigger
 namespace Demeter.Drv
-open Demeter Lean
+open Demeter Demeter.Core Lean
+
+namespace CoreDrv
+
+def jIntOf (v : Json) : Except String Int := do
+  let r ← jRatOf v
+  if r.den = 1 then pure r.num else throw "not an integer"
+
+def jIntArr (j : Json) (k : String) : Except String (List Int) := do
+  let a ← jArr j k
+  a.toList.mapM jIntOf
+
+def jPairArr (j : Json) (k : String) : Except String (List (Int × Int)) := do
+  let a ← jArr j k
+  a.toList.mapM fun v => match v with
+    | .arr #[x, y] => do pure (← jIntOf x, ← jIntOf y)
+    | _ => throw "expected [s, e]"
+
+def jStrD (j : Json) (k : String) (d : String) : String :=
+  match j.getObjVal? k with
+  | .ok (.str s) => s
+  | _ => d
+
+def parseSpec (j : Json) : Except String TrigSpec := do
+  match ← jStr j "k" with
+  | "base" => pure .base
+  | "atTime" => pure (.atTime (← jInt j "s"))
+  | "atTimes" => pure (.atTimes (← jIntArr j "ss"))
+  | "range" => pure (.range (← jInt j "s") (← jInt j "e"))
+  | "ranges" => pure (.ranges (← jPairArr j "rs"))
+  | "period" => pure (.period (← jInt j "d") (← jBool j "imm") (← jInt j "pend"))
+  | "periods" => pure (.periods (← jIntArr j "ds") (← jBool j "imm") (← jInt j "pend"))
+  | k => throw s!"unknown trigger kind {k}"
+
+def errJ : Option PyErr → Json
+  | none => .null
+  | some e => .str e.name
+
+def intsJ (l : List Int) : Json := .arr (l.map intJ).toArray
+
+/-- construct every spec; the ones that construct are installed in order -/
+def buildTrigs (specs : List (String × TrigSpec)) : List Json × List (String × TrigSpec × TrigKind) :=
+  specs.foldr (fun (kw, sp) (ms, ok) =>
+    match sp.make with
+    | .ok k => (Json.null :: ms, (kw, sp, k) :: ok)
+    | .error e => (Json.str e.name :: ms, ok)) ([], [])
+
+def trigRunH : JHandler := fun j => do
+  let bars ← jIntArr j "bars"
+  let specsJ ← jArr j "specs"
+  let specs ← specsJ.toList.mapM fun s => do pure (jStrD s "kw" "", ← parseSpec s)
+  let (made, ok) := buildTrigs specs
+  let trigs := install (ok.map fun (kw, _, k) => (kw, k))
+  let (fires, left, err) := trigRun bars trigs
+  let t0 := bars.headD 0
+  let den := ok.map fun (_, sp, _) => intsJ (bars.filter (denotes t0 sp))
+  pure <| Json.mkObj [
+    ("make", .arr made.toArray),
+    ("fires", .arr (fires.map fun f => Json.arr #[intJ f.ts, natJ f.id, .str f.kw]).toArray),
+    ("left", .arr (left.map fun t => natJ t.id).toArray),
+    ("err", errJ err),
+    ("denoted", .arr den.toArray)]
+
+end CoreDrv
 
 def coreHandlers : List (String × Handler) := []
-def coreJHandlers : List (String × JHandler) := []
+def coreJHandlers : List (String × JHandler) := [
+  ("trig_run", CoreDrv.trigRunH)
+]
 
 end Demeter.Drv
